@@ -14,6 +14,8 @@ igc_one() { # $1 = shim dir, $2 = out.o, $3 = src.c
     objcopy --prefix-symbols=igc_ "$2" || return 1
     local args=()
     for s in $IGC_KEEP; do args+=(--redefine-sym "igc_$s=$s"); done
-    for s in $(nm -u "$2" | awk '{print $2}' | grep '^igc___' | sort -u); do args+=(--redefine-sym "$s=${s#igc_}"); done
+    for s in $(nm -u "$2" | awk '{print $2}' | grep '^igc___' | sort -u); do
+        case " $IGC_KEEP " in *" ${s#igc_} "*) ;; *) args+=(--redefine-sym "$s=${s#igc_}") ;; esac
+    done
     [ ${#args[@]} -eq 0 ] || objcopy "${args[@]}" "$2"
 }
